@@ -4,6 +4,7 @@ package c33
 import (
 	"fmt"
 	"math/rand/v2"
+	"sort"
 	"strings"
 	"sync"
 	"time"
@@ -76,6 +77,9 @@ func run(c *core.Case) {
 	span := ds.T1 - ds.T0
 	if c.Variant == "default" {
 		partA(c, r, ds, span)
+		if c.Idx%3 == 0 {
+			partA2(c, c.SubRng("partA2"), ds, span)
+		}
 	}
 	if c.Variant == "race" || c.Idx%2 == 0 {
 		partB(c, c.SubRng("partB"), ds, span)
@@ -300,6 +304,81 @@ func partA(c *core.Case, r *rand.Rand, ds *pqgen.Dataset, span int64) {
 		}
 		if c.Idx < 3 && qi < 2 {
 			c.Sample(map[string]any{"query": clip(qs, 300), "class": class, "instant": map[string]any{"stage": ir.Stage, "err": clip(ir.Err, 120), "points": ir.NPoints}, "range": map[string]any{"stage": rr.Stage, "err": clip(rr.Err, 120), "points": rr.NPoints, "start": start, "step_ms": step, "steps": nsteps}})
+		}
+	}
+}
+
+// partA2: every function with a matrix argument over a float, a histogram and a mixed-type metric,
+// with ranges of 1.5–3.5 sample spacings, as range queries over the whole data span with a step
+// of about one spacing: every composition of a small window (float after histograms, histogram
+// after floats, a single sample, staleness markers inside) is met by every such function.
+func partA2(c *core.Case, r *rand.Rand, ds *pqgen.Dataset, span int64) {
+	eng := pqgen.NewEngineMax(5*time.Minute, ds.Spacing, r.IntN(2) == 0, 50_000_000)
+	defer eng.Close()
+	var names []string
+	for n, f := range parser.Functions {
+		for _, at := range f.ArgTypes {
+			if at == parser.ValueTypeMatrix {
+				names = append(names, n)
+				break
+			}
+		}
+	}
+	sort.Strings(names)
+	var metrics []string
+	if ds.HasMixed {
+		metrics = append(metrics, "mixed")
+	}
+	if len(ds.Cfg.HistMetrics) > 0 {
+		metrics = append(metrics, ds.Cfg.HistMetrics[r.IntN(len(ds.Cfg.HistMetrics))])
+	}
+	if len(ds.Cfg.FloatMetrics) > 0 {
+		metrics = append(metrics, ds.Cfg.FloatMetrics[r.IntN(len(ds.Cfg.FloatMetrics))])
+	}
+	step := ds.Spacing + r.Int64N(ds.Spacing/2+1) - ds.Spacing/4
+	if step < 1 {
+		step = 1
+	}
+	nsteps := span/step + 2
+	if nsteps > 600 {
+		nsteps = 600
+	}
+	start := ds.T0 - step + r.Int64N(step+1)
+	for _, fn := range names {
+		f := parser.Functions[fn]
+		for _, m := range metrics {
+			rng := ds.Spacing*int64(3+2*r.IntN(3))/2 + r.Int64N(3) - 1
+			if rng < 1 {
+				rng = 1
+			}
+			var args []string
+			for _, at := range f.ArgTypes {
+				switch at {
+				case parser.ValueTypeMatrix:
+					args = append(args, fmt.Sprintf("%s[%dms]", m, rng))
+				case parser.ValueTypeScalar:
+					args = append(args, []string{"0.5", "1", "0", "-1", "3"}[r.IntN(5)])
+				case parser.ValueTypeString:
+					args = append(args, `"x"`)
+				default:
+					args = append(args, m)
+				}
+			}
+			if f.Variadic != 0 && len(args) > 1 && r.IntN(2) == 0 {
+				args = args[:len(args)-1] // the optional trailing argument left out
+			}
+			qs := fn + "(" + strings.Join(args, ", ") + ")"
+			rr := pqgen.RangeOpts(eng, ds.DB, nil, qs, time.UnixMilli(start), time.UnixMilli(start+(nsteps-1)*step), time.Duration(step)*time.Millisecond)
+			what := fmt.Sprintf("range query %q start=%d end=%d step=%dms [systematic family: matrix functions over small windows]", qs, start, start+(nsteps-1)*step, step)
+			bad := checkInternal(c, &rr, qs, false, what)
+			c.Count("family_range_queries", 1)
+			c.Seen("family_functions", fn)
+			if rr.Stage == "" && rr.NPoints > 0 {
+				c.Count("family_succeeded_nonempty", 1)
+			}
+			if !bad && rr.Stage != "create" {
+				c.Nontrivial("A2", c.Seed, c.Idx, qs, start, step)
+			}
 		}
 	}
 }
